@@ -1,5 +1,6 @@
 """C16 — sync/async iterator bridges preserve the sequence and propagate errors."""
 import asyncio
+import concurrent
 import concurrent.futures
 import logging
 import random
@@ -7,7 +8,7 @@ import threading
 import types
 import queue as _real_queue
 
-from ..core import lean
+from ..core import lean, attach
 from ..core.baton import Sched, BLoop
 from ..core.common import Outcome, fingerprint
 from ..core.par import run_chunks, mark
@@ -121,7 +122,7 @@ class CoopQueue:
         import aiuti.asyncio as A
         E.S.point('queue.put')
         self.items.append(x)
-        E.labels.append('pd' if x is A._DONE else 'p:%d' % ident(x))
+        E.labels.append('pd' if type(x) is object else 'p:%d' % ident(x))
 
     def put(self, x, block=True, timeout=None):
         self.put_nowait(x)
@@ -177,7 +178,7 @@ class BridgeLoop(BLoop):
                 getattr(cb, '__name__', '') in ('put_nowait', 'put')
                 or isinstance(getattr(cb, '__self__', None), asyncio.Queue)):
             E.S.point('call_soon_threadsafe')
-            E.labels.append('pd' if args[0] is A._DONE else 'p:%d' % ident(args[0]))
+            E.labels.append('pd' if type(args[0]) is object else 'p:%d' % ident(args[0]))
         return super().call_soon_threadsafe(cb, *args, **kw)
 
 
@@ -226,21 +227,11 @@ def run_case(case, seed, pct=0, choices=None):
     S = Sched(seed, choices=choices, pct_depth=pct, max_steps=6000)
     E = Env(S)
     ENV = E
-    # whatever the module imports for its thread pool / hand-off queue / asyncio is replaced by the cooperative versions,
-    # under whichever of the usual names it is imported (a name a rewrite no longer imports is simply not there)
-    want = {'ThreadPoolExecutor': CoopExecutor, 'queue': QueueProxy('queue'), 'aio': AioProxy('asyncio'),
-            'asyncio': AioProxy('asyncio'), 'Queue': CoopQueue, 'SimpleQueue': CoopQueue}
-    saved = {}
-    for name, repl in want.items():
-        cur = getattr(A, name, _MISSING)
-        if cur is _MISSING:
-            continue
-        if name in ('Queue', 'SimpleQueue') and cur not in (_real_queue.Queue, _real_queue.SimpleQueue):
-            continue
-        if name == 'asyncio' and cur is not asyncio:
-            continue
-        saved[name] = cur
-        setattr(A, name, repl)
+    # the module's thread pool class, hand-off queue classes and loop factory are replaced by the cooperative versions,
+    # found by identity (however the module spells its imports)
+    attach.substitute(A, [(concurrent.futures.ThreadPoolExecutor, CoopExecutor), (_real_queue.Queue, CoopQueue),
+                          (_real_queue.SimpleQueue, CoopQueue), (asyncio.new_event_loop, AioProxy.new_event_loop)],
+                      (concurrent, concurrent.futures, _real_queue, asyncio))
     ids, fail, delays = case['ids'], case['fail'], case['delays']
     boom = (QuietBoom if case.get('falsy') else Boom)('source failed')
     res = {'got': [], 'end': 'missing', 'ticks': 0}
@@ -359,8 +350,7 @@ def run_case(case, seed, pct=0, choices=None):
             S.spawn('C', body)
         S.run(wall_timeout=20)
     finally:
-        for name, cur in saved.items():
-            setattr(A, name, cur)
+        attach.restore(A)
     res.update(labels=E.labels, hung=S.hung, errors=S.errors, trace=S.trace, vt=S.vt,
                workers_alive=[w for w in E.workers if S.threads[w]['alive']], nworkers=len(E.workers))
     return res
